@@ -16,12 +16,19 @@ from .sockworld import quiesce
 
 
 class ApiWorld:
-    def __init__(self, gen, loop, net, log, inst=None, knobs=None):
+    def __init__(self, gen, loop, net, log, inst=None, knobs=None, host=None):
         self.gen = gen
         self.loop, self.net, self.log = loop, net, log
         self.inst = inst if inst is not None else C.default_installation(gen, 1, (2,))
-        self.console = C.SimConsole(net, self.inst, knobs)
-        self.at = H.connect(gen)
+        # host given: one of several clients / consoles on the same simulated network
+        self.host = host
+        self.console = C.SimConsole(net, self.inst, knobs, host=host)
+        self.at = H.connect(gen) if host is None else H.connect(gen, host)
+
+    def conn(self):
+        """This client's open connection (None while down)."""
+        cs = [c for c in self.net.open_conns() if self.host is None or c.host == self.host]
+        return cs[-1] if cs else None
 
     async def init(self):
         return await H.probe(self.log, "init", self.at.init())
